@@ -242,11 +242,13 @@ pub fn gen_string_body(t: &mut Tape, quote: u8, cfg: &LitCfg) -> Vec<u8> {
 }
 
 pub fn gen_block_body(t: &mut Tape, cfg: &LitCfg) -> Vec<u8> {
-    let len = match t.weighted(&[3, 4, 2, 1]) {
+    let len = match t.weighted(&[30, 40, 20, 10, if cfg.max_payload >= 8 { 2 } else { 0 }]) {
         0 => t.below(3),
         1 => t.range(1, 6),
         2 => t.range(3, cfg.max_payload.max(3)),
-        _ => t.range(0, cfg.max_payload * 3),
+        3 => t.range(0, cfg.max_payload * 3),
+        // lengths with three and four digits (beyond one-byte counters)
+        _ => [255usize, 256, 257, 300, 999, 1000, 1023][t.below(7)],
     };
     let mut body = Vec::new();
     for _ in 0..len {
